@@ -1,5 +1,6 @@
 import RallyModel.Samples
 import RallyProofs.Samples
+import RallyProofs.SamplesFlush
 /-!
 # C07 — every request sample reaches the metrics store exactly once
 
@@ -64,10 +65,68 @@ theorem throughput_uses_all (cfg : Cfg) (evs : List Event) (s : State) (h : run 
   run_induction (cfg := cfg) (fun s => s.fed.count a = processed a s)
     (fun _ _ _ hs hp => step_fed hs a hp) evs init s h rfl
 
+/-- **flush_delivers_everything** — the pipeline cannot get stuck: from every reachable state, the flush of that state
+    (every worker ships, the driver receives the shipments in sending order, post-processes once and hands over,
+    race control receives every hand-over — what the end of a step does) is enabled to its end, contains no new
+    request, and leaves nothing in flight; with the default factor, race control's store then holds exactly the
+    accepted samples. -/
+theorem flush_delivers_everything (cfg : Cfg) (hf : cfg.factor = 1) (evs : List Event) (s : State)
+    (h : run cfg init evs = some s) :
+    ∃ s', run cfg init (evs ++ flush s) = some s' ∧ drained s' ∧ s'.rstore.Perm s.accepted ∧
+      s'.dropped = s.dropped ∧ ∀ e ∈ flush s, e.isRequest = false := by
+  obtain ⟨s', hr, hd, hacc, hdr⟩ := flush_drains cfg s
+  have hrun : run cfg init (evs ++ flush s) = some s' := by rw [run_append, h]; exact hr
+  refine ⟨s', hrun, hd, ?_, hdr, flush_no_request s⟩
+  rw [← hacc]
+  exact records_exact_at_end cfg hf _ s' hrun hd.1 hd.2.1 hd.2.2.1 hd.2.2.2.1 hd.2.2.2.2
+
+/-- the same for any factor: after the flush every accepted sample is in the store or was down-sampled -/
+theorem flush_delivers_all_but_downsampled (cfg : Cfg) (evs : List Event) (s : State)
+    (h : run cfg init evs = some s) :
+    ∃ s', run cfg init (evs ++ flush s) = some s' ∧ drained s' ∧
+      ∀ a, s'.rstore.count a + s'.downsampled.count a = s.accepted.count a := by
+  obtain ⟨s', hr, hd, hacc, _⟩ := flush_drains cfg s
+  have hrun : run cfg init (evs ++ flush s) = some s' := by rw [run_append, h]; exact hr
+  refine ⟨s', hrun, hd, fun a => ?_⟩
+  rw [← hacc]
+  exact only_queue_or_downsampling_reduce cfg _ s' hrun hd.1 hd.2.1 hd.2.2.1 hd.2.2.2.1 hd.2.2.2.2 a
+
+/-- **one_record_of_each_kind_per_request** — the records stored for one sample: exactly one latency and one
+    processing_time record with the sample's own operation labels, one service_time record with them followed by
+    one service_time record per dependent timing with that timing's labels; every one of them carries the sample's
+    client id, task and sample type. -/
+theorem one_record_of_each_kind_per_request (i : Info) :
+    ((recordsOf i).filter fun r => r.name == .latency) = [⟨.latency, i.client, i.task, i.op, i.opType, i.normal⟩] ∧
+    ((recordsOf i).filter fun r => r.name == .processingTime) = [⟨.processingTime, i.client, i.task, i.op, i.opType, i.normal⟩] ∧
+    ((recordsOf i).filter fun r => r.name == .serviceTime) =
+      ⟨.serviceTime, i.client, i.task, i.op, i.opType, i.normal⟩ :: i.deps.map (fun d => ⟨.serviceTime, i.client, i.task, d.1, d.2, i.normal⟩) ∧
+    (∀ r ∈ recordsOf i, r.client = i.client ∧ r.task = i.task ∧ r.normal = i.normal) :=
+  recordsOf_shape i
+
+/-- **records_at_end** — with the default factor, once the pipeline is drained, the request records in race control's
+    store are exactly (a permutation of) the records of the accepted samples: three per request plus one per
+    dependent timing, none lost, none twice. -/
+theorem records_at_end (cfg : Cfg) (hf : cfg.factor = 1) (info : Sid → Info) (evs : List Event) (s : State)
+    (h : run cfg init evs = some s) (hd : drained s) :
+    (records info s.rstore).Perm (records info s.accepted) :=
+  records_perm info (records_exact_at_end cfg hf evs s h hd.1 hd.2.1 hd.2.2.1 hd.2.2.2.1 hd.2.2.2.2)
+
+/-- … hence, per client and task, as many latency records as accepted requests of that client and task -/
+theorem latency_records_per_client_and_task (cfg : Cfg) (hf : cfg.factor = 1) (info : Sid → Info) (evs : List Event) (s : State)
+    (h : run cfg init evs = some s) (hd : drained s) (c : Nat) (t : String) :
+    recCount info .latency c t s.rstore = s.accepted.countP fun a => (info a).client == c && (info a).task == t := by
+  have hp := records_exact_at_end cfg hf evs s h hd.1 hd.2.1 hd.2.2.1 hd.2.2.2.1 hd.2.2.2.2
+  rw [← hp.countP_eq, ← latency_count]
+
 /-! ### non-vacuity (tests, labelled as tests) -/
 
 example : (run ⟨2, 2⟩ init [.request 0 1, .request 0 2, .request 0 3, .request 1 4, .ship 0, .deliverU 0, .ship 1, .deliverU 1,
     .postprocess, .handover, .deliverR]).map (fun s => (s.rstore, s.downsampled, s.dropped, s.accepted, s.fed)) =
     some ([1, 4], [2], [3], [1, 2, 4], [1, 2, 4]) := by decide
+
+example : flush (⟨[(1, 7), (0, 8), (1, 9)], [(0, [5])], [], [4], [[3]], [], [], [], [], []⟩ : State) =
+    [.ship 1, .ship 0, .deliverU 0, .deliverU 1, .deliverU 0, .postprocess, .handover, .deliverR, .deliverR] := by decide
+
+example : (recordsOf ⟨2, "t", "t", "composite", true, [("a", "search"), ("b", "search")]⟩).length = 5 := by decide
 
 end C07
